@@ -9,7 +9,8 @@ import MorfuseModel.Sched.MachineLifeTraceHost
 thread-record creations/destructions, of instance creations/unlinkings, each replaying from the empty structure to the
 state's.  `reachableSL_ledgers`: every state reachable with any driver commands has them, and so does the state in which
 the held snapshot was taken; a `load` restarts the history from the snapshot's history (the loaded timer, notify table,
-record ids and instance ids are the snapshot's).  No fuel condition.
+record ids and instance ids are the snapshot's).  `reachableSL_clocks`: `m_time ≤ lastClock = scaledTime ≤ clock` with all
+commands; `reachableSL_timer_history`: the timer ledger can be chosen with `AddsLate`.  No fuel condition.
 -/
 namespace Morfuse.Sched
 open State
@@ -87,5 +88,100 @@ theorem reachableSL_ledgers {s : State} {k : Option Snap} (h : ReachableSL s k) 
     obtain ⟨s0, h0, hk⟩ := ih.2
     subst hk
     exact ⟨load_ledgers _ s0 h0, s0, h0, rfl⟩
+
+/-! ### the clocks and `AddsLate` with `save` / `load`
+
+A `load` puts back the snapshot's timer with the snapshot's `m_time`, which is the frame clock of the moment of the
+`save`, hence `≤` (not `=`) the present frame clock: the clock is the host's and keeps running (`reset` starts a new
+context with clock 0, and drops the snapshot).  So `m_time = lastClock` (`reachable_mtime`) becomes `m_time ≤ lastClock`;
+a loaded element may be overdue (due `<` the present frame time: it is resumed by the next drain) but every `add` of the
+history — the snapshot's history followed by what happened since the load — still has due `≥ m_time` of its moment. -/
+
+structure SLClocks (s : State) (k : Option Snap) : Prop where
+  sc : s.scaled = s.lastClock
+  lc : s.lastClock ≤ s.clock
+  mt : s.timer.mtime ≤ s.lastClock
+  snap : ∀ k0, k = some k0 → k0.timer.mtime ≤ s.lastClock
+
+theorem SLClocks.hr {a b : State} {k : Option Snap} (h : SLClocks a k) (hr : HR a b) : SLClocks b k := by
+  have hc := hr.ht.c3
+  simp only [Prod.mk.injEq] at hc
+  refine ⟨?_, ?_, ?_, ?_⟩
+  · rw [hc.2.1, hc.2.2]; exact h.sc
+  · rw [hc.1, hc.2.2]; exact h.lc
+  · rw [hr.ht.mtime, hc.2.2]; exact h.mt
+  · intro k0 hk; rw [hc.2.2]; exact h.snap k0 hk
+
+theorem hostExecute_clocks (a : State) (k : Option Snap) (h : SLClocks a k) : SLClocks (hostExecute a) k := by
+  rw [hostExecute_eq]
+  refine SLClocks.hr ?_ (((processEvents_hr defaultFuel (frameSetTime a))).trans ((hrAll defaultFuel).er _))
+  refine ⟨?_, Nat.le_refl _, Nat.le_refl _, fun k0 hk => Nat.le_trans (h.snap k0 hk) h.lc⟩
+  show a.scaled + (a.clock - a.lastClock) = a.clock
+  have := h.sc; have := h.lc; omega
+
+/-- **the clocks with all commands**: `scaledTime` is the clock of the last frame; the timer's `m_time` and the held
+    snapshot's `m_time` are not ahead of it — with or without fuel -/
+theorem reachableSL_clocks {s : State} {k : Option Snap} (h : ReachableSL s k) : SLClocks s k := by
+  induction h with
+  | init => exact ⟨rfl, Nat.le_refl _, Nat.le_refl _, fun _ hk => by cases hk⟩
+  | @step s0 k0 op _ _ ih =>
+    cases op with
+    | reset => exact ⟨rfl, Nat.le_refl _, Nat.le_refl _, fun _ hk => by cases hk⟩
+    | script p ps => exact ih.hr (hostScript_hr _ p ps)
+    | call l args => exact ih.hr (hostCall_hr _ l args)
+    | callv l => exact ih.hr (hostCallV_hr _ l)
+    | advance n => exact ⟨ih.sc, Nat.le_trans ih.lc (Nat.le_add_right _ _), ih.mt, ih.snap⟩
+    | resetDirector => exact ih.hr (hostReset_hr _)
+    | execute => exact hostExecute_clocks _ _ ih
+    | step n =>
+      exact hostExecute_clocks { s0 with clock := s0.clock + n } _
+        ⟨ih.sc, Nat.le_trans ih.lc (Nat.le_add_right _ _), ih.mt, ih.snap⟩
+    | takeOut => exact ⟨ih.sc, ih.lc, ih.mt, ih.snap⟩
+  | save _ _ ih => exact ⟨ih.sc, ih.lc, ih.mt, fun k0 hk => by cases hk; exact ih.mt⟩
+  | @load s0 k0 _ _ _ ih =>
+    have h1 := ih.hr (killAllInsts_hr s0)
+    exact ⟨h1.sc, h1.lc, h1.snap k0 rfl, h1.snap⟩
+
+def SnapHist : Option Snap → Prop
+  | none => True
+  | some k => ∃ ops : List TOp, timerRun {} ops = k.timer ∧ AddsLate {} ops
+
+/-- **the timer ledger with `AddsLate` exists for every state the driver can reach, all commands included** -/
+theorem reachableSL_timer_history {s : State} {k : Option Snap} (h : ReachableSL s k) :
+    (∃ ops, Hist s ops) ∧ SnapHist k := by
+  induction h with
+  | init => exact ⟨⟨[], rfl, trivial⟩, trivial⟩
+  | @step s0 k0 op hreach _ ih =>
+    obtain ⟨⟨ops, hh⟩, hk⟩ := ih
+    have hc := reachableSL_clocks hreach
+    have hm : s0.timer.mtime ≤ s0.scaled := by rw [hc.sc]; exact hc.mt
+    have hex : ∀ a : State, Hist a ops → a.lastClock ≤ a.clock → a.scaled = a.lastClock →
+        ∃ ops', Hist (hostExecute a) ops' := by
+      intro a ha h1 h2
+      have hf : Hist (frameSetTime a) (ops ++ [.setTime a.clock]) := by
+        refine ⟨?_, ?_⟩
+        · rw [timerRun_append, ha.run]; rfl
+        · exact AddsLate.append _ _ _ ha.late ⟨trivial, trivial⟩
+      obtain ⟨o', h'⟩ := hf.step (s' := hostExecute a) (by
+        show a.clock ≤ a.scaled + (a.clock - a.lastClock); omega) (hostExecute_tt a)
+      exact ⟨_, h'⟩
+    cases op with
+    | reset => exact ⟨⟨[], rfl, trivial⟩, trivial⟩
+    | script p ps => obtain ⟨o, h'⟩ := hh.step hm (hostScript_tt s0 p ps); exact ⟨⟨_, h'⟩, hk⟩
+    | call l args => obtain ⟨o, h'⟩ := hh.step hm (hostCall_tt s0 l args); exact ⟨⟨_, h'⟩, hk⟩
+    | callv l => obtain ⟨o, h'⟩ := hh.step hm (hostCallV_tt s0 l); exact ⟨⟨_, h'⟩, hk⟩
+    | advance n => exact ⟨⟨ops, hh.run, hh.late⟩, hk⟩
+    | resetDirector => obtain ⟨o, h'⟩ := hh.step hm (hostReset_tt s0); exact ⟨⟨_, h'⟩, hk⟩
+    | execute => exact ⟨hex s0 hh hc.lc hc.sc, hk⟩
+    | step n =>
+      exact ⟨hex { s0 with clock := s0.clock + n } ⟨hh.run, hh.late⟩
+        (Nat.le_trans hc.lc (Nat.le_add_right _ _)) hc.sc, hk⟩
+    | takeOut => exact ⟨⟨ops, hh.run, hh.late⟩, hk⟩
+  | save _ _ ih =>
+    obtain ⟨⟨ops, hh⟩, _⟩ := ih
+    exact ⟨⟨ops, hh⟩, ops, hh.run, hh.late⟩
+  | load _ _ _ ih =>
+    obtain ⟨_, ops, h1, h2⟩ := ih
+    exact ⟨⟨ops, h1, h2⟩, ops, h1, h2⟩
 
 end Morfuse.Sched
